@@ -264,7 +264,7 @@ TOPOLOGIES = ("tri1", "s2x2", "fan3", "fan4", "ring6", "s3x3", "delaunay")
 def topologies(tier):
     if tier == "quick":
         return TOPOLOGIES
-    return ("tri1", "s2x2", "fan3", "fan4", "ring6", "s3x3", "s4x3", "delaunay6", "delaunay7", "delaunay8", "delaunay9")
+    return ("tri1", "s2x2", "fan3", "fan4", "ring6", "s3x3", "s4x3", "delaunay6", "delaunay9")
 
 
 def base_topology(topo, seed):
